@@ -703,6 +703,12 @@ func body(t *testing.T, c *vk.Ctx) {
 		}
 		ex.OnExec = func(r *sched.Result) { judge(c, sc, r) }
 		r1, d := ex.CheckReplayable(sc.sched())
+		for try := 0; d != "" && try < 3; try++ {
+			// two free-running dial workers: on a heavily loaded machine the recording itself can differ from its
+			// first replay; the pre-check is repeated before the harness declares itself unusable for this scenario
+			c.Count("n_precheck_retries", 1)
+			r1, d = ex.CheckReplayable(sc.sched())
+		}
 		if d != "" {
 			c.Broken("scenario %s: default schedule is not deterministic: %s", sc, d)
 			continue
